@@ -784,6 +784,10 @@ class Exec:
                     if best is None or k > best[0]:
                         best = (k, f)
                 return best[1]
+            # provided (default) method of a crate trait: its MIR is listed under the trait, e.g. utility::BytesExt::next_u16_be
+            for f in self.by_last.get(meth, []):
+                if f.impl_at is None and re.search(r'(^|::)' + re.escape(trl) + r'::' + re.escape(meth) + r'$', f.name):
+                    return f
             return None
         parts = [p for p in name.split('::')] if '<' not in name else self._split_path(name)
         # drop turbofish segments (Type::<T>::method)
@@ -1210,6 +1214,8 @@ class Exec:
                 return Agg(tyl, {}, info[m.group(2)])
             if tyl in ('Option', 'Ordering') and m.group(2) in ('None', 'Less', 'Equal', 'Greater'):
                 return self.mk_variant(m.group(1), m.group(2), {})
+        if txt.startswith('tracing::') or txt.startswith('tracing_core::'):
+            return Opaque(txt)
         r = self.named_const(txt, f)
         if r is not None:
             return r
